@@ -141,17 +141,25 @@ def run(ctx):
             flat.append(x)
         usage_true = False
         usage_false = False
+        def _usage_pol(t, b):
+            # (cfg usage_db) possibly under not / truth wrappers -> polarity or None
+            while t[0] in ("not", "truth"):
+                if t[0] == "not":
+                    b = not b
+                t = t[1]
+            return b if t == ("cfg", "usage_db") else None
         for x, _ in flat_events(later):
             for (t, b, s) in x["pc"][len(e["pc"]):]:
-                if t == ("cfg", "usage_db"):
-                    if b:
-                        usage_true = True
-                    else:
-                        usage_false = True
+                pol = _usage_pol(t, b)
+                if pol is True:
+                    usage_true = True
+                elif pol is False:
+                    usage_false = True
         for (t, b, s) in tuple(e["pc"]) + tuple(tx.alt_pc):
-            if t == ("cfg", "usage_db"):
-                usage_true = usage_true or b
-                usage_false = usage_false or (not b)
+            pol = _usage_pol(t, b)
+            if pol is not None:
+                usage_true = usage_true or pol
+                usage_false = usage_false or (not pol)
         recs = [x for x, _ in flat_events(around)
                 if x["k"] == "sql" and x["db"] == "usage" and x["stmt"].kind == "insert"
                 and x["stmt"].table == st.table]
